@@ -32,8 +32,8 @@ Record hcase := HC {
   h_st : pstate;
   h_page : loc;
   h_repaired : bool;                (* which third guard item.go has, see Html.post_stops *)
-  h_html : bool;                    (* extractAssets dispatches to HTMLAssets (false: an XHTML
-                                       content type goes to the XML extractor) *)
+  h_html : bool;                    (* extractAssets dispatches to HTMLAssets (false: an XML or JSON
+                                       content type other than application/xhtml+xml) *)
   h_sweep : bool;                   (* extractOutlinks adds Link headers / the text sweep *)
   h_dom : list node;
   h_readback : bool;                (* the real parser read the rendering back to h_dom *)
@@ -165,7 +165,7 @@ Definition purls_of (c : hcase) (p : plant) : list purl :=
     let e := elem_at c el in
     if std_attr (tag_of e) name
     then map (fun h => PU (render_ref (hc_ref h)) (Some (hc_ref h)) e
-                          (negb (forallb (fun x => wf_cand (hcand_s x)) cs)) false true) cs
+                          (negb (wf_cands (map hcand_s cs))) false true) cs
     else []
   | PlCss el ts tail =>
     let e := elem_at c el in
